@@ -11,7 +11,7 @@ From Coq Require Import List NArith Bool Arith Lia.
 Import ListNotations.
 From PV Require Import Regex Base AstDefs AstSpec AstImpl GenTables NodeModel Generator ClimbProofs ClimbComplete GenParen GenBinop.
 From PV Require Import LexTables ParserTables PyRepr ParserBase ParserDecl ParserMain LexerProofs TableProofs.
-From PV Require Import BinaryRefine ExprShape UnaryShape CoordProofs ElseProofs StreamLib RoundTrip RoundTripGen RoundTripX.
+From PV Require Import BinaryRefine ExprShape UnaryShape CoordProofs ElseProofs StmtShape StreamLib RoundTrip RoundTripGen RoundTripX.
 Open Scope nat_scope.
 
 Inductive st :=
@@ -25,14 +25,15 @@ Inductive st :=
 | SWhile (c: ex) (b: st)
 | SDo (b: st) (c: ex)
 | SFor (i c n: option ex) (b: st)
-| SBlock (items: list st).
+| SBlock (items: list st)
+| SLabel (l: str) (b: st).
 
 (* does the statement end in an if without else? *)
 Fixpoint sopen (x: st) : bool :=
   match x with
   | SIf _ _ None => true
   | SIf _ _ (Some el) => sopen el
-  | SWhile _ b | SFor _ _ _ b => sopen b
+  | SWhile _ b | SFor _ _ _ b | SLabel _ b => sopen b
   | _ => false
   end.
 
@@ -45,6 +46,7 @@ Fixpoint swf (x: st) : Prop :=
   | SWhile c b => wf c /\ swf b
   | SDo b c => swf b /\ wf c
   | SFor i c n b => owf i /\ owf c /\ owf n /\ swf b
+  | SLabel _ b => swf b
   | SBlock items => (fix wl (l: list st) : Prop := match l with [] => True | y :: r => swf y /\ wl r end) items
   | _ => True
   end.
@@ -53,7 +55,7 @@ Definition swfl (l: list st) : Prop := (fix wl (l: list st) : Prop := match l wi
 Fixpoint ssize (x: st) : nat :=
   match x with
   | SIf _ th el => S (ssize th + match el with Some e => ssize e | None => 0 end)
-  | SWhile _ b | SDo b _ | SFor _ _ _ b => S (ssize b)
+  | SWhile _ b | SDo b _ | SFor _ _ _ b | SLabel _ b => S (ssize b)
   | SBlock items => S (list_sum (map ssize items))
   | _ => 1
   end.
@@ -72,6 +74,7 @@ Fixpoint embs (x: st) : value unit :=
   | SDo b c => VNode C_DoWhile [embx c; embs b] None
   | SFor i c n b => VNode C_For [oemb i; oemb c; oemb n; embs b] None
   | SBlock items => VNode C_Compound [match items with [] => VNone | _ => VList (map embs items) end] None
+  | SLabel l b => VNode C_Label [VStr l; embs b] None
   end.
 
 Section STK.
@@ -92,6 +95,7 @@ Fixpoint stoks (x: st) : list (kind * str) :=
   | SDo b c => kw K_DO "do" :: stoks b ++ kw K_WHILE "while" :: kw K_LPAREN "(" :: xt rp c ++ [kw K_RPAREN ")"; kw K_SEMI ";"]
   | SFor i c n b => kw K_FOR "for" :: kw K_LPAREN "(" :: oxt i ++ kw K_SEMI ";" :: oxt c ++ kw K_SEMI ";" :: oxt n ++ kw K_RPAREN ")" :: stoks b
   | SBlock items => kw K_LBRACE "{" :: concat (map stoks items) ++ [kw K_RBRACE "}"]
+  | SLabel l b => (K_ID, l) :: kw K_COLON ":" :: stoks b
   end.
 End STK.
 
@@ -680,6 +684,64 @@ Proof.
   unfold bind at 1. rewrite (H7 f) by lia. unfold bind at 1. rewrite H8. unfold bind at 1. rewrite (H9 f) by lia.
   unfold bind at 1. rewrite tcoord_eq. reflexivity.
 Qed.
+(* ---- labels: `name : statement` ---- *)
+Definition ssk (k: kind) : bool := kind_in k tbl_STARTS_STATEMENT || kind_in k tbl_STARTS_EXPRESSION.
+Definition sshead (kvs: list (kind * str)) : Prop := exists k v rest, kvs = (k, v) :: rest /\ ssk k = true.
+
+Lemma label_start : forall (s: pstate) t c l, Up s (t :: c :: l) -> tk t = K_ID -> tk c = K_COLON ->
+  exists s5, Up s5 l /\ Ran P s s5 2 /\ forall f, p_statement P (S (S f)) s =
+    bind P (StmtShape.lbody P f t) (fun stmt => bind P (tcoord P t) (fun cd => ret P (mkN P C_Label [VStr (tv t); stmt] cd))) s5.
+Proof.
+  intros s t c l HU Hk Hc.
+  destruct (peek_kind_up P s t _ HU) as [s1 [H1 [HU1 HC1]]].
+  destruct (peek2_up P s1 t c l HU1) as [s2 [H2 [HU2 HC2]]].
+  destruct (peek_kind_up P s2 t _ HU2) as [s3 [H3 [HU3 HC3]]].
+  destruct (advance_up P s3 t _ HU3) as [s4 [H4 [HU4 HC4]]].
+  assert (Hck: kind_eqb (tk c) K_COLON = true) by (rewrite Hc; reflexivity).
+  destruct (expect_up P s4 c _ K_COLON HU4 Hck) as [s5 [H5 [HU5 HC5]]].
+  exists s5. split; [exact HU5|]. split; [cost_tac|]. intros f.
+  rewrite stmt_eq. unfold bind at 1. rewrite H1. rewrite Hk.
+  change (okind_is (Some K_ID) K_CASE || okind_is (Some K_ID) K_DEFAULT) with false. cbv iota.
+  change (okind_is (Some K_ID) K_ID) with true. cbv iota.
+  unfold bind at 1. unfold bind at 1. rewrite H2. unfold ret at 1. cbn [okind_is]. rewrite Hc.
+  change (kind_eqb K_COLON K_COLON) with true. cbv iota.
+  rewrite (StmtShape.labeled_eq P). unfold bind at 1. rewrite H3. rewrite Hk. change (okind_is (Some K_ID) K_ID) with true. cbv iota.
+  unfold bind at 1. rewrite H4. unfold bind at 1. rewrite H5. reflexivity.
+Qed.
+
+Lemma lbody_run : forall kb Xb opb, StmtS kb Xb opb -> sshead kb ->
+  forall (t: tok) (s: pstate) le (stop: tok) l0, Spell le kb -> Up s (le ++ stop :: l0) -> (opb = true -> kind_eqb (tk stop) K_ELSE = false) ->
+  exists f0 N s', (forall f, f0 <= f -> StmtShape.lbody P f t s = Ok (N, s')) /\ Up s' (stop :: l0) /\ strip N = Xb /\ Ran P s s' (length le).
+Proof.
+  intros kb Xb opb HB [k [v [rest [Ek Hss]]]] t s le stop l0 HS HU Hop.
+  pose proof HS as HS0. rewrite Ek in HS. destruct (RoundTrip.Spell_cons_inv P _ _ _ _ HS) as [x [tl [El [Hkx [_ _]]]]]. subst le. cbn [app] in HU.
+  destruct (peek_kind_up P s x _ HU) as [s1 [H1 [HU1 HC1]]].
+  destruct (peek_kind_up P s1 x _ HU1) as [s2 [H2 [HU2 HC2]]].
+  unfold ssk in Hss. rewrite <- Hkx in Hss.
+  destruct (kind_in (tk x) tbl_STARTS_STATEMENT) eqn:E1.
+  - destruct (HB s1 (x :: tl) stop l0 HS0 HU1 Hop) as [f0 [N [s3 [H3 [HU3 [HN HL3]]]]]].
+    exists f0, N, s3. split; [|split; [exact HU3|split; [exact HN|cost_tac]]].
+    intros f Hf. unfold StmtShape.lbody. unfold bind at 1. unfold starts_statement. unfold bind at 1. rewrite H1. rewrite E1. unfold ret at 1. apply H3. exact Hf.
+  - cbn [orb] in Hss. destruct (HB s2 (x :: tl) stop l0 HS0 HU2 Hop) as [f0 [N [s3 [H3 [HU3 [HN HL3]]]]]].
+    exists f0, N, s3. split; [|split; [exact HU3|split; [exact HN|cost_tac]]].
+    intros f Hf. unfold StmtShape.lbody. unfold bind at 1. unfold starts_statement. unfold bind at 1. rewrite H1. rewrite E1.
+    unfold starts_expression. unfold bind at 1. rewrite H2. unfold ret at 1. cbn [okind_in]. rewrite Hss. apply H3. exact Hf.
+Qed.
+
+Lemma s_label : forall lb kb Xb opb, StmtS kb Xb opb -> sshead kb ->
+  StmtS0 ((K_ID, lb) :: kw K_COLON ":" :: kb) (VNode C_Label [VStr lb; Xb] None) opb.
+Proof.
+  intros lb kb Xb opb HB Hh s le stop l0 HS HU Hop.
+  destruct (RoundTrip.Spell_cons_inv P _ _ _ _ HS) as [t [l1 [-> [Hk [Hv HS1]]]]].
+  destruct (RoundTrip.Spell_cons_inv P _ _ _ _ HS1) as [c [l2 [-> [Hc [_ HS2]]]]].
+  cbn [app] in HU.
+  destruct (label_start s t c _ HU Hk Hc) as [s3 [HU3 [HC3 Hd]]].
+  destruct (lbody_run kb Xb opb HB Hh t s3 l2 stop l0 HS2 HU3 Hop) as [f0 [N [s4 [H4 [HU4 [HN HL4]]]]]].
+  exists (S (S f0)), (mkN P C_Label [VStr (tv t); N] (Some (mkCoord P (curfile P s4) (tp t)))), s4.
+  split; [|split; [exact HU4|split; [unfold mkN; cbn [strip map]; rewrite Hv, HN; reflexivity|cost_tac]]].
+  intros f Hf. destruct f as [|[|f]]; try lia. rewrite Hd. unfold bind at 1. rewrite (H4 f) by lia. unfold bind at 1. rewrite tcoord_eq. reflexivity.
+Qed.
+
 (* ---- blocks ---- *)
 Lemma blk_eq : forall f,
   p_block_item_list P (S f) =
@@ -878,10 +940,19 @@ Qed.
 
 Lemma stoks_head : forall x, swf x -> shead (stoks rp x).
 Proof.
-  intros x Hw. destruct x as [e| |o| | |l|c th el|c b|b c|i c nx b|items]; cbn [stoks];
+  intros x Hw. destruct x as [e| |o| | |l|c th el|c b|b c|i c nx b|items|lb b]; cbn [stoks];
     try (eexists; eexists; eexists; split; [reflexivity|reflexivity]).
   cbn [swf] in Hw. destruct (xt_head rp (size e) e (le_n _) Hw [kw K_SEMI ";"] (ncolon_cons K_SEMI (s2l ";") [] eq_refl)) as [k [v [rest [Ek [Hes _]]]]].
   exists k, v, rest. split; [exact Ek|apply estart_sstart; exact Hes].
+Qed.
+
+(* ... and can follow a label *)
+Lemma stoks_ss : forall x, swf x -> sshead (stoks rp x).
+Proof.
+  intros x Hw. destruct x as [e| |o| | |l|c th el|c b|b c|i c nx b|items|lb b]; cbn [stoks];
+    try (eexists; eexists; eexists; split; [reflexivity|reflexivity]).
+  cbn [swf] in Hw. destruct (xt_sestart rp e Hw) as [k [v [rest [Ek Hse]]]].
+  exists k, v, (rest ++ [kw K_SEMI ";"]). split; [rewrite Ek; reflexivity|]. unfold ssk. unfold sestart in Hse. rewrite Hse. apply orb_true_r.
 Qed.
 
 Lemma embs_node : forall x, exists c fs co, embs x = VNode c fs co.
@@ -899,7 +970,7 @@ Proof.
   assert (HEx: forall e, wf e -> ExprS P (xt rp e) (embx e)) by (intros e He; exact (T_expr P rp e (T_all P rp (size e) e (le_n _) He))).
   assert (IHs: forall y, ssize y <= n -> swf y -> StmtS P (stoks rp y) (embs y) (sopen y)).
   { intros y Hy Hwy. apply s0_to_s; [apply shead_nopragma; apply stoks_head; exact Hwy|apply IH; assumption]. }
-  destruct x as [e| |o| | |l|c th el|c b|b c|i c nx b|items]; cbn [ssize] in Hn; cbn [swf] in Hw; cbn [stoks embs sopen].
+  destruct x as [e| |o| | |l|c th el|c b|b c|i c nx b|items|lb b]; cbn [ssize] in Hn; cbn [swf] in Hw; cbn [stoks embs sopen].
   - destruct (embx_node e) as [cc [fs [co EX]]]. eapply s_expr; [exact EX|apply HEx; exact Hw|].
     apply (xt_head rp (size e) e (le_n _) Hw). apply ncolon_cons. reflexivity.
   - apply s_empty.
@@ -923,6 +994,8 @@ Proof.
       unfold item_ok. split; [apply IH; [pose proof (in_ssum items y Hy); lia|exact Hwy]|]. split; [apply stoks_head; exact Hwy|apply embs_node]. }
     pose proof (s_block P _ HF) as HB. rewrite !map_map in HB. cbn [fst snd] in HB.
     destruct items as [|y r]; exact HB.
+  - (* label *)
+    apply s_label; [apply IHs; [lia|exact Hw]|apply stoks_ss; exact Hw].
 Qed.
 
 (* parse . generate = id, token level: every statement, as a block item and in a sub-statement position - with the
